@@ -47,8 +47,8 @@ def run(chk: Check, ctx: Any) -> None:
     repo = ctx.repo
     fold = ctx.fold
     chk.explanation = (
-        "C02 as a whole (behaviour preservation of ~1 600 lines of heuristic graph rewriting on every flow graph) is not decidable by static analysis; "
-        "this check decides necessary conditions. (R1) every spelling the decompiler prints for a special opcode, parsed with the grammar and read by "
+        "C02 as a whole (behaviour preservation of ~1 600 lines of heuristic graph rewriting on every flow graph) is out of reach; R1-R6 decide "
+        "shape-independent necessary conditions, R7 the enumerated program families. (R1) every spelling the decompiler prints for a special opcode, parsed with the grammar and read by "
         "the language's form table, denotes the opcode it was printed for with the parameters in order (see c02_forms). (R2) dispatch exhaustiveness: "
         "every opcode of OPS_BRANCH / OPS_SWITCH_CASE_MAP / the case lists / OPS_FLAG_ALL / OPS_CTX / the message-switch tables has a print branch, every "
         "LabelJumpMarker subclass a write handler. (R3) edge conventions: the graph builder gives the fall-through successor flow_level and the taken "
@@ -56,6 +56,9 @@ def run(chk: Check, ctx: Any) -> None:
         "marker.is_not; the if writer prints `not` exactly under is_not and takes marker, clauses and exits from the op and vertex it is asked to "
         "print. (R4) no pass deletes the routine's entry vertex. (R5) = C11-R5 memo rules. (R6) the passes run in the dependency order recorded from the "
         "code (e.g. group_branches before invert_branches). The structuring heuristics themselves are not decided."
+        " (R7, interpreter-based) compile(), convert() and compile() again are evaluated from their syntax trees (parser runtime, graph library and file system"
+        " modelled) on the general, nested and flat program families; for every program whose decompilation is ExplorerScript the text must compile and its flo"
+        "w graph must be bisimilar to the input's. R7 decides the enumerated shapes for all test outcomes; R1-R6 are shape-independent necessary conditions."
     )
     chk.rule("C02-R7", "round trip, every stage interpreted: for each program of the skeleton families (schematic ops and tests) whose decompilation is ExplorerScript, the text compiles and its flow graph is bisimilar to the input (all outcomes of all tests); same routine table")
     chk.rule("C02-R1", "print o parse o form-table = identity on every special-opcode spelling (see evidence key forms)")
